@@ -1,4 +1,5 @@
 import Resolvo.MDet.Truth
+import Resolvo.CacheProofs
 /-!
 # The invariant of `MDet/Truth.lean` through every function of the model (synchronous and asynchronous)
 -/
@@ -21,7 +22,7 @@ macro "ts_step" : tactic => `(tactic| first
   | with_reducible exact tm_allocClause_learnt _ _
   | with_reducible exact tm_allocClause_root _
   | with_reducible assumption
-  | ((with_reducible apply tm_modify); intro _ h; first | exact tinv_of_view h rfl rfl rfl rfl rfl rfl | (split <;> exact tinv_of_view h rfl rfl rfl rfl rfl rfl))
+  | ((with_reducible apply tm_modify); intro _ h; first | exact tinv_of_view h rfl rfl rfl rfl rfl rfl rfl | (split <;> exact tinv_of_view h rfl rfl rfl rfl rfl rfl rfl))
   | ((with_reducible apply tm_forIn); intro _ _)
   | with_reducible apply tm_bind
   | intro _
@@ -36,14 +37,14 @@ macro "ts_at" : tactic => `(tactic| repeat (first
   | exact (tm_panic _).at _
   | exact (tm_throw _).at _
   | (apply tmAt_set_bind
-     · intro h; exact tinv_of_view h rfl rfl rfl rfl rfl rfl
+     · intro h; exact tinv_of_view h rfl rfl rfl rfl rfl rfl rfl
      · ts)
   | split
   | dsimp only))
 
 macro_rules | `(tactic| ts_lemma) => `(tactic| with_reducible exact tm_emit _)
 theorem tm_setWatchList (l : Lit) (cs : List Nat) : TM U P (setWatchList l cs) :=
-  tm_modify _ (fun _ h => tinv_of_view h rfl rfl rfl rfl rfl rfl)
+  tm_modify _ (fun _ h => tinv_of_view h rfl rfl rfl rfl rfl rfl rfl)
 macro_rules | `(tactic| ts_lemma) => `(tactic| with_reducible exact tm_setWatchList _ _)
 
 macro_rules | `(tactic| ts_lemma) => `(tactic| with_reducible exact tm_internSolvable _)
@@ -129,14 +130,14 @@ macro_rules | `(tactic| ts_lemma) => `(tactic| with_reducible exact tm_getSorted
 
 theorem tinv_push_queue {s s' : S} (h : TInv U P s) (t : Task) (ht : TaskLegit U P t) (h1 : s'.origins = s.origins)
     (h2 : s'.solvVar = s.solvVar) (h3 : s'.nextVar = s.nextVar) (h4 : s'.clauses = s.clauses) (h5 : s'.trackers = s.trackers)
-    (h6 : s'.queue = s.queue ++ [t]) : TInv U P s' ∧ Ext s s' :=
-  ⟨⟨h.wf, by rw [h1]; exact h.root0, by rw [h1, h3]; exact h.fresh, by rw [h1, h2]; exact h.sv,
+    (h6 : s'.queue = s.queue ++ [t]) (h7 : s'.reqCands = s.reqCands) : TInv U P s' ∧ Ext s s' :=
+  ⟨⟨xinv_of_view h.extra h1 h2 h4 h7, h.wf, by rw [h1]; exact h.root0, by rw [h1, h3]; exact h.fresh, by rw [h1, h2]; exact h.sv,
     by rw [h1, h4]; exact h.kinds, by rw [h1, h5]; exact h.trk, by
       rw [h6]; intro x hx
       rcases List.mem_append.mp hx with hx | hx
       · exact h.queue x hx
       · rw [List.mem_singleton.mp hx]; exact ht⟩,
-   by intro v o hv; rw [h1]; exact hv⟩
+   Ext.of_eq h1 h7⟩
 
 theorem tm_queueSolvable (sid : SoR) : TM U P (queueSolvable sid) := by
   unfold queueSolvable
@@ -145,7 +146,7 @@ theorem tm_queueSolvable (sid : SoR) : TM U P (queueSolvable sid) := by
   split
   · exact (tm_pure _).at _
   · apply tmAt_set_bind
-    · intro h; exact tinv_push_queue h (.deps sid) trivial rfl rfl rfl rfl rfl rfl
+    · intro h; exact tinv_push_queue h (.deps sid) trivial rfl rfl rfl rfl rfl rfl rfl
     · ts
 macro_rules | `(tactic| ts_lemma) => `(tactic| with_reducible exact tm_queueSolvable _)
 
@@ -156,12 +157,12 @@ theorem tm_queuePackage (n : Nat) : TM U P (queuePackage n) := by
   split
   · exact (tm_pure _).at _
   · apply tmAt_set_bind
-    · intro h; exact tinv_push_queue h (.pkg n) trivial rfl rfl rfl rfl rfl rfl
+    · intro h; exact tinv_push_queue h (.pkg n) trivial rfl rfl rfl rfl rfl rfl rfl
     · ts
 macro_rules | `(tactic| ts_lemma) => `(tactic| with_reducible exact tm_queuePackage _)
 
 theorem tm_pushTask (t : Task) (ht : TaskLegit U P t) : TM U P (pushTask t) :=
-  tm_modify _ (fun _ h => tinv_push_queue h t ht rfl rfl rfl rfl rfl rfl)
+  tm_modify _ (fun _ h => tinv_push_queue h t ht rfl rfl rfl rfl rfl rfl rfl)
 
 theorem stable_forall_osolv (A : Nat → Prop) (Q : Nat → Prop) :
     Stable (fun s => ∀ x, A x → ∃ sx, oSolv s.origins x = some sx ∧ Q sx) := by
@@ -170,7 +171,7 @@ theorem stable_forall_osolv (A : Nat → Prop) (Q : Nat → Prop) :
   exact ⟨sx, oSolv_ext e x sx h1, h2⟩
 
 macro "tr_quiet" : tactic => `(tactic| (apply tr_of_tm; ts))
-macro "stab" : tactic => `(tactic| repeat (first | assumption | exact stable_const _ | exact stable_osolv _ _ | exact sidVar_stable _ _ | exact stable_forall_osolv _ _ | exact pairOK_stable _ _ | exact stable_kind _ | apply stable_and))
+macro "stab" : tactic => `(tactic| repeat (first | assumption | exact stable_const _ | exact stable_osolv _ _ | exact sidVar_stable _ _ | exact stable_forall_osolv _ _ | exact pairOK_stable _ _ | exact stable_kind _ | exact stable_kindReq _ | exact stable_hasReq _ | apply stable_and))
 
 /-- the fact an exclusion clause states -/
 def ExclTrue (U : Universe) (sid : SoR) (reason : Nat) : Prop :=
@@ -182,7 +183,7 @@ theorem tr_addExclusionClause (F : S → Prop) (hF : Stable F) (sid : SoR) (reas
   apply tr_bind hF (tr_internSoR F sid)
   intro v
   apply tr_bind (stable_and hF (sidVar_stable sid v))
-  · apply tr_allocClause
+  · apply tr_allocClause_nr _ _ _ (fun _ _ h => by cases h)
     intro s hi hFs
     obtain ⟨x, rfl, hx⟩ := h hi.wf
     exact ⟨x, hFs.2, hx⟩
@@ -232,7 +233,7 @@ theorem tr_addForbidMultiple (F : S → Prop) (U : Universe) (c v : Nat)
   -- the state after the tracker was written back
   have hi1 : TInv U P { s with trackers := ((U.nameOf c, (Amo.add { t := (s.trackers.lookup (U.nameOf c)).getD {}, next := s.nextVar, out := [] } v).t) ::
       (s.trackers.filter (fun e => e.1 != U.nameOf c))) } := by
-    refine ⟨hi.wf, hi.root0, hi.fresh, hi.sv, hi.kinds, ?_, hi.queue⟩
+    refine ⟨xinv_of_view hi.extra rfl rfl rfl rfl, hi.wf, hi.root0, hi.fresh, hi.sv, hi.kinds, ?_, hi.queue⟩
     intro name tr hl x hx
     by_cases hn : name = U.nameOf c
     · subst hn
@@ -242,7 +243,7 @@ theorem tr_addForbidMultiple (F : S → Prop) (U : Universe) (c v : Nat)
     · rw [lookup_cons_filter_ne _ _ _ _ hn] at hl
       exact hi.trk name tr hl x hx
   apply tr_at (s0 := s) (G := fun _ _ => True) (F := fun s' => ∀ x, (x ∈ ((s.trackers.lookup (U.nameOf c)).getD {}).vars ∨ x = v) →
-      ∃ sx, oSolv s'.origins x = some sx ∧ U.nameOf sx = U.nameOf c) _ hi1 hctx (fun _ _ h => h)
+      ∃ sx, oSolv s'.origins x = some sx ∧ U.nameOf sx = U.nameOf c) _ hi1 hctx (Ext.of_eq rfl rfl)
   apply tr_bind (by stab) (G := fun _ _ => True)
   · apply tr_forIn (by stab)
     intro fc b hfc
@@ -253,13 +254,13 @@ theorem tr_addForbidMultiple (F : S → Prop) (U : Universe) (c v : Nat)
     · apply tr_bind (by stab) (tr_of_tm _ (tm_allocForbidVar _))
       intro _
       apply tr_bind (by stab) (G := fun _ _ => True)
-      · apply tr_allocClause
+      · apply tr_allocClause_nr _ _ _ (fun _ _ h => by cases h)
         intro s' _ hF'
         exact hF'.1.1 fc.a ha
       · intro id
         tr_quiet
     · apply tr_bind (by stab) (G := fun _ _ => True)
-      · apply tr_allocClause
+      · apply tr_allocClause_nr _ _ _ (fun _ _ h => by cases h)
         intro s' _ hF'
         exact hF'.1 fc.a ha
       · intro id
@@ -351,7 +352,7 @@ theorem tm_onCandidates (name : Nat) (p : Pkg) (hp : U.pkg? name = some p ∨ (p
           apply tr_bind (by stab) (tr_internSolvable _ locked)
           intro lv
           apply tr_bind (by stab) (G := fun _ _ => True)
-          · apply tr_allocClause
+          · apply tr_allocClause_nr _ _ _ (fun _ _ h => by cases h)
             intro s hi hF
             have hname : U.nameOf other = name := hi.wf.names name p hpk other hother
             refine ⟨locked, other, p, hF.2, hF.1.2, by rw [hname]; exact hpk, hl, ?_⟩
@@ -387,7 +388,7 @@ theorem tm_onConstraintCandidates (sid : SoR) (vs : Nat) (cands : List Nat) (hc 
     split
     · exact tr_panic_bind _ _ _ _
     · apply tr_bind (by stab) (G := fun _ _ => True)
-      · apply tr_allocClause
+      · apply tr_allocClause_nr _ _ _ (fun _ _ h => by cases h)
         intro s hi hF
         obtain ⟨reqs, cons, h1, h2⟩ := hc
         refine ⟨⟨reqs, cons, ?_, h2⟩, f, hF.1.2, hcands f hf⟩
@@ -399,7 +400,8 @@ theorem tm_onConstraintCandidates (sid : SoR) (vs : Nat) (cands : List Nat) (hc 
 
 /-- `on_requirement_candidates_available` for a requirement of the solvable -/
 theorem tm_onRequirementCandidates (U : Universe) (sid : SoR) (r : Req) (candidates : List (List Nat))
-    (hr : TaskLegit U P (.req sid r)) : TM U P (onRequirementCandidates U sid r candidates) := by
+    (hr : TaskLegit U P (.req sid r)) (hc : ∀ c, c ∈ candidates.flatten ↔ c ∈ U.reqCands r) :
+    TM U P (onRequirementCandidates U sid r candidates) := by
   unfold onRequirementCandidates
   apply tm_of_tr (G := fun _ _ => True)
   apply tr_bind (by stab) (tr_internSoR _ sid)
@@ -454,13 +456,20 @@ theorem tm_onRequirementCandidates (U : Universe) (sid : SoR) (r : Req) (candida
       intro s0
       split
       · exact tr_panic_bind _ _ _ _
-      · apply tr_bind (by stab) (G := fun _ _ => True)
-        · apply tr_allocClause
+      · apply tr_bind (by stab) (G := fun _ s => (s.reqCands.lookup r).isSome = true)
+        · apply tr_cacheInsert
           intro s hi hF
-          obtain ⟨reqs, cons, h1, h2⟩ := hr
-          refine ⟨reqs, cons, ?_, h2⟩
-          rw [parentDeps_of_sidVar s hi sid pvar hF.1.1.1]; exact h1
-        · intro id; tr_quiet
+          obtain ⟨h1, h2⟩ := pairOK_sides hF.1.1.2
+          exact ⟨fun v hv => let ⟨c, hc1, hc2⟩ := h1 v hv; ⟨c, hc2, (hc c).mp hc1⟩,
+                 fun c hcm => h2 c ((hc c).mpr hcm)⟩
+        · intro _
+          apply tr_bind (by stab) (G := fun _ _ => True)
+          · apply tr_allocClause
+            intro s hi hF
+            obtain ⟨reqs, cons, h1, h2⟩ := hr
+            refine ⟨⟨reqs, cons, ?_, h2⟩, fun p r' hk => by cases hk; exact hF.2⟩
+            rw [parentDeps_of_sidVar s hi sid pvar hF.1.1.1.1]; exact h1
+          · intro id; tr_quiet
 
 /-! ### the tasks of the encoder: what the provider answers -/
 
@@ -479,6 +488,28 @@ theorem tr_getCandidates (U : Universe) (n : Nat) :
     Tr U P (fun _ => True) (getCandidates U n) (fun p _ => p = (U.pkg? n).getD { cands := [] }) := by
   unfold getCandidates
   apply tr_bind (by stab) (tr_of_tm _ tm_get)
+  intro s0
+  dsimp only
+  split <;> tr_seq_pure
+
+theorem mem_sortedCands (U : Universe) (vs x : Nat) : x ∈ sortedCands U vs ↔ x ∈ U.candsOf vs := by
+  unfold sortedCands
+  rw [mem_favoredFirst, mem_rankSort]
+
+theorem mem_flatten_sortedCands (U : Universe) (r : Req) (c : Nat) :
+    c ∈ ((U.reqVersionSets r).map (sortedCands U)).flatten ↔ c ∈ U.reqCands r := by
+  unfold Universe.reqCands
+  simp only [List.mem_flatten, List.mem_map, List.mem_flatMap]
+  constructor
+  · rintro ⟨l, ⟨vs, hvs, rfl⟩, hc⟩
+    exact ⟨vs, hvs, (mem_sortedCands U vs c).mp hc⟩
+  · rintro ⟨vs, hvs, hc⟩
+    exact ⟨_, ⟨vs, hvs, rfl⟩, (mem_sortedCands U vs c).mpr hc⟩
+
+theorem tr_getSortedVs (F : S → Prop) (hF : Stable F) (U : Universe) (vs : Nat) :
+    Tr U P F (getSortedVs U vs) (fun l _ => l = sortedCands U vs) := by
+  unfold getSortedVs
+  apply tr_bind hF (tr_of_tm _ tm_get)
   intro s0
   dsimp only
   split <;> tr_seq_pure
@@ -520,8 +551,22 @@ theorem tm_runTask (U : Universe) (P : Problem) (t : Task) (ht : TaskLegit U P t
     exact tr_of_tm _ (tm_onCandidates n p (pkg_answer U n p hp))
   | req sid r =>
     unfold runTask
-    have := fun l => tm_onRequirementCandidates (P := P) U sid r l ht
-    ts
+    apply tm_of_tr (G := fun _ _ => True)
+    apply tr_bind (by stab) (G := fun (lists : List (List Nat)) _ => lists = (U.reqVersionSets r).map (sortedCands U))
+    · apply tr_weaken (tr_forIn_inv (F := fun _ => True) (by stab)
+        (fun (pre : List Nat) (acc : List (List Nat)) _ => acc = pre.map (sortedCands U)) _ (U.reqVersionSets r) [] [] ?_)
+        (fun s h => ⟨h, rfl⟩) (fun b s h => by simpa using h)
+      intro pre vs acc _
+      apply tr_bind (by stab) (tr_getSortedVs _ (by stab) U vs)
+      intro l
+      apply tr_pure_ctx
+      intro s h
+      refine ⟨_, rfl, ?_⟩
+      rw [h.1.2, h.2]; simp
+    · intro lists
+      apply tr_assume (p := lists = (U.reqVersionSets r).map (sortedCands U)) (fun _ h => h.2)
+      intro hl
+      exact tr_of_tm _ (tm_onRequirementCandidates U sid r lists ht (by rw [hl]; exact mem_flatten_sortedCands U r))
   | cons sid vs =>
     unfold runTask
     apply tm_of_tr (G := fun _ _ => True)
@@ -533,10 +578,10 @@ theorem tm_runTask (U : Universe) (P : Problem) (t : Task) (ht : TaskLegit U P t
 
 theorem tinv_set_queue {s s' : S} (h : TInv U P s) (q : List Task) (hq : ∀ t ∈ q, TaskLegit U P t) (h1 : s'.origins = s.origins)
     (h2 : s'.solvVar = s.solvVar) (h3 : s'.nextVar = s.nextVar) (h4 : s'.clauses = s.clauses) (h5 : s'.trackers = s.trackers)
-    (h6 : s'.queue = q) : TInv U P s' ∧ Ext s s' :=
-  ⟨⟨h.wf, by rw [h1]; exact h.root0, by rw [h1, h3]; exact h.fresh, by rw [h1, h2]; exact h.sv,
+    (h6 : s'.queue = q) (h7 : s'.reqCands = s.reqCands) : TInv U P s' ∧ Ext s s' :=
+  ⟨⟨xinv_of_view h.extra h1 h2 h4 h7, h.wf, by rw [h1]; exact h.root0, by rw [h1, h3]; exact h.fresh, by rw [h1, h2]; exact h.sv,
     by rw [h1, h4]; exact h.kinds, by rw [h1, h5]; exact h.trk, by rw [h6]; exact hq⟩,
-   by intro v o hv; rw [h1]; exact hv⟩
+   Ext.of_eq h1 h7⟩
 
 theorem tm_encodeSync_loop (U : Universe) (P : Problem) (n : Nat) : TM U P (encodeSync.loop U P n) := by
   induction n with
@@ -553,12 +598,12 @@ theorem tm_encodeSync_loop (U : Universe) (P : Problem) (n : Nat) : TM U P (enco
       have ht : TaskLegit U P t := hi.queue t (by rw [hq]; exact List.mem_cons_self)
       apply tmAt_set_bind
       · intro h
-        exact tinv_set_queue h rest (fun x hx => h.queue x (by rw [hq]; exact List.mem_cons_of_mem _ hx)) rfl rfl rfl rfl rfl rfl
+        exact tinv_set_queue h rest (fun x hx => h.queue x (by rw [hq]; exact List.mem_cons_of_mem _ hx)) rfl rfl rfl rfl rfl rfl rfl
       · exact tm_bind _ _ (tm_runTask U P t ht) (fun _ => ih)
 macro_rules | `(tactic| ts_lemma) => `(tactic| with_reducible exact tm_encodeSync_loop _ _ _)
 
 theorem tm_resetQueue : TM U P (modify fun s => { s with queue := [], conflicting := [] } : M Unit) :=
-  tm_modify _ (fun _ h => tinv_set_queue h [] (fun _ hx => by cases hx) rfl rfl rfl rfl rfl rfl)
+  tm_modify _ (fun _ h => tinv_set_queue h [] (fun _ hx => by cases hx) rfl rfl rfl rfl rfl rfl rfl)
 macro_rules | `(tactic| ts_lemma) => `(tactic| with_reducible exact tm_resetQueue)
 
 theorem tm_encodeSync (U : Universe) (P : Problem) (sv : List SoR) (fuel : Nat) : TM U P (encodeSync U P sv fuel) := by
@@ -617,12 +662,21 @@ def ResFor (U : Universe) (P : Problem) : Task → TaskResult → Prop
   | .cons sid vs, .cons sid' vs' l => sid' = sid ∧ vs' = vs ∧ l = U.nonMatching vs
   | _, _ => False
 
-theorem tm_runCallback (U : Universe) (P : Problem) (t : Task) (r : TaskResult) (ht : TaskLegit U P t) (hr : ResFor U P t r) :
-    TM U P (runCallback U P r) := by
+/-- the candidate lists a requirement future hands over: the sorted candidates of its children's version sets -/
+def ReqLists (U : Universe) (vss : List Nat) : TaskResult → Prop
+  | .req _ _ lists => lists = vss.map (sortedCands U)
+  | _ => True
+
+theorem tm_runCallback (U : Universe) (P : Problem) (t : Task) (r : TaskResult) (ht : TaskLegit U P t) (hr : ResFor U P t r)
+    (hl : ∀ sid q, t = .req sid q → ReqLists U (U.reqVersionSets q) r) : TM U P (runCallback U P r) := by
   cases t <;> cases r <;> simp only [ResFor] at hr
   · obtain ⟨rfl, rfl⟩ := hr; exact tm_onDependencies U P _ _ rfl
   · obtain ⟨rfl, hp⟩ := hr; exact tm_onCandidates _ _ (pkg_answer U _ _ hp)
-  · obtain ⟨rfl, rfl⟩ := hr; exact tm_onRequirementCandidates U _ _ _ ht
+  · next sid q sid' q' lists =>
+    obtain ⟨rfl, rfl⟩ := hr
+    have h := hl _ _ rfl
+    simp only [ReqLists] at h
+    exact tm_onRequirementCandidates U _ _ _ ht (by rw [h]; exact mem_flatten_sortedCands U _)
   · obtain ⟨rfl, rfl, rfl⟩ := hr; exact tm_onConstraintCandidates _ _ _ ht (fun _ h => h)
 
 macro "res_fin" ht:ident : tactic => `(tactic| (intro r hr; first | (cases hr; done) | (cases hr; rw [$ht:ident]; simp [ResFor, depsAnswer])))
@@ -738,8 +792,46 @@ theorem pollTask_res (U : Universe) (P : Problem) (t : ATask) (a : AS) (s s' : S
           obtain ⟨⟨rfl, rfl, rfl⟩, _⟩ := h
           intro r hr; cases hr
 
-/-- every future of the encoder asks about something true -/
-def ALegit (U : Universe) (P : Problem) (a : AS) : Prop := ∀ t ∈ a.tasks, TaskLegit U P t.task
+/-- the candidate lists of a finished requirement future are the sorted candidates of its children's version sets -/
+theorem pollTask_lists (U : Universe) (P : Problem) (t : ATask) (a : AS) (s s' : S) (t' : ATask) (a' : AS)
+    (res : Option TaskResult) (h : runM (pollTask U P t a) s = (.ok (t', a', res), s')) :
+    ∀ r, res = some r → ReqLists U (t.children.map (·.vs)) r := by
+  intro r hr
+  have hres := pollTask_res U P t a s s' t' a' res h r hr
+  cases r with
+  | deps _ _ => trivial
+  | cands _ _ => trivial
+  | cons _ _ _ => trivial
+  | req sid q lists =>
+    cases ht : t.task with
+    | deps x => rw [ht] at hres; simp [ResFor] at hres
+    | pkg x => rw [ht] at hres; simp [ResFor] at hres
+    | cons x y => rw [ht] at hres; simp [ResFor] at hres
+    | req sid0 q0 =>
+      unfold pollTask at h
+      rw [ht] at h
+      simp only [runM_bind] at h
+      cases hq : runM (pollChildren U t.id true t.children a) s with
+      | mk r2 s2 =>
+        cases r2 with
+        | error e => simp only [hq] at h; exact absurd h (by simp)
+        | ok v2 =>
+          obtain ⟨cs2, a2⟩ := v2
+          have h2 := (pollChildren_started U t.id true t.children a s s2 cs2 a2 hq).1
+          simp only [hq] at h
+          by_cases hall : (cs2.all (·.done)) = true
+          · simp only [hall, if_true, runM_pure, Prod.mk.injEq, Except.ok.injEq] at h
+            obtain ⟨⟨rfl, rfl, rfl⟩, _⟩ := h
+            cases hr
+            show cs2.map (fun c => sortedCands U c.vs) = (t.children.map (·.vs)).map (sortedCands U)
+            rw [← h2, List.map_map]; rfl
+          · simp only [hall, Bool.false_eq_true, if_false, runM_pure, Prod.mk.injEq, Except.ok.injEq] at h
+            obtain ⟨⟨rfl, rfl, rfl⟩, _⟩ := h
+            cases hr
+
+/-- every future of the encoder asks about something true, and the children of a requirement future are its version sets -/
+def ALegit (U : Universe) (P : Problem) (a : AS) : Prop :=
+  ∀ t ∈ a.tasks, TaskLegit U P t.task ∧ ∀ sid q, t.task = .req sid q → t.children.map (·.vs) = U.reqVersionSets q
 
 theorem alegit_adoptOne (U : Universe) (a : AS) (t : Task) (h : ALegit U P a) (ht : TaskLegit U P t) : ALegit U P (adoptOne U a t) := by
   intro x hx
@@ -747,7 +839,11 @@ theorem alegit_adoptOne (U : Universe) (a : AS) (t : Task) (h : ALegit U P a) (h
   simp only [List.mem_append, List.mem_singleton] at hx
   rcases hx with hx | rfl
   · exact h x hx
-  · exact ht
+  · refine ⟨ht, ?_⟩
+    intro sid q hq
+    dsimp only at hq ⊢
+    subst hq
+    simp [List.map_map, Function.comp_def]
 
 theorem alegit_foldl_adoptOne (U : Universe) (q : List Task) (a : AS) (h : ALegit U P a) (hq : ∀ t ∈ q, TaskLegit U P t) :
     ALegit U P (q.foldl (adoptOne U) a) := by
@@ -761,7 +857,7 @@ theorem tr_adoptPushed (U : Universe) (a : AS) (ha : ALegit U P a) :
   intro s hi _
   unfold adoptPushed
   simp only [runM_bind, runM_get, runM_set, runM_pure]
-  refine ⟨(tinv_set_queue (s' := { s with queue := [] }) hi [] (fun _ hx => by cases hx) rfl rfl rfl rfl rfl rfl).1, fun _ _ h => h, fun a1 h1 => ?_⟩
+  refine ⟨(tinv_set_queue (s' := { s with queue := [] }) hi [] (fun _ hx => by cases hx) rfl rfl rfl rfl rfl rfl rfl).1, Ext.of_eq rfl rfl, fun a1 h1 => ?_⟩
   cases h1
   exact alegit_foldl_adoptOne U s.queue a ha hi.queue
 
@@ -770,14 +866,14 @@ theorem tm_adoptPushed (U : Universe) (a : AS) : TM U P (adoptPushed U a) := by
   apply tm_get_bind
   intro s
   apply tmAt_set_bind
-  · intro h; exact tinv_set_queue h [] (fun _ hx => by cases hx) rfl rfl rfl rfl rfl rfl
+  · intro h; exact tinv_set_queue h [] (fun _ hx => by cases hx) rfl rfl rfl rfl rfl rfl rfl
   · exact tm_pure _
 
 theorem tm_executorTurn (a : AS) : TM U P (executorTurn a) := by
   unfold executorTurn
   dsimp only
   apply tm_bind
-  · apply tm_modify; intro _ h; exact tinv_of_view h rfl rfl rfl rfl rfl rfl
+  · apply tm_modify; intro _ h; exact tinv_of_view h rfl rfl rfl rfl rfl rfl rfl
   · intro _
     apply tm_get_bind
     intro s
@@ -821,22 +917,29 @@ theorem tr_asyncStep (U : Universe) (P : Problem) (a : AS) (ha : ALegit U P a) :
         cases ha'
         exact ha1
       · apply tr_bind (by stab) (tr_of_tm_spec _
-          (fun v : ATask × AS × Option TaskResult => v.2.1.tasks = a1.tasks ∧ v.1.task = t.task ∧ ∀ r, v.2.2 = some r → ResFor U P t.task r)
+          (fun v : ATask × AS × Option TaskResult => v.2.1.tasks = a1.tasks ∧ v.1.task = t.task ∧
+            (∀ r, v.2.2 = some r → ResFor U P t.task r ∧ ReqLists U (t.children.map (·.vs)) r) ∧
+            (∀ sid q, t.task = .req sid q → v.1.children.map (·.vs) = t.children.map (·.vs)))
           (tm_pollTask U P t { a1 with ready := rest })
           (fun s s' v h => ⟨(pollTask_spec U P t _ s s' v.1 v.2.1 v.2.2 h).1.tasks, (pollTask_dspec U P t _ s s' v.1 v.2.1 v.2.2 h).1,
-            pollTask_res U P t _ s s' v.1 v.2.1 v.2.2 h⟩))
+            fun r hr => ⟨pollTask_res U P t _ s s' v.1 v.2.1 v.2.2 h r hr, pollTask_lists U P t _ s s' v.1 v.2.1 v.2.2 h r hr⟩,
+            fun sid q hq => (pollTask_req_started U P t sid q _ s s' v.1 v.2.1 v.2.2 hq h).1⟩))
         intro v
         obtain ⟨t', a3, res⟩ := v
         dsimp only
-        apply tr_assume (p := a3.tasks = a1.tasks ∧ t'.task = t.task ∧ ∀ r, res = some r → ResFor U P t.task r) (fun _ h => h.2)
-        intro ⟨h1, h2, h3⟩
+        apply tr_assume (p := a3.tasks = a1.tasks ∧ t'.task = t.task ∧
+            (∀ r, res = some r → ResFor U P t.task r ∧ ReqLists U (t.children.map (·.vs)) r) ∧
+            (∀ sid q, t.task = .req sid q → t'.children.map (·.vs) = t.children.map (·.vs))) (fun _ h => h.2)
+        intro ⟨h1, h2, h3, h4⟩
         have hfin : ALegit U P { a3 with tasks := a3.tasks.map (fun x => if x.id == tid then t' else x) } := by
           intro x hx
           simp only [List.mem_map] at hx
           obtain ⟨y, hy, rfl⟩ := hx
           rw [h1] at hy
           split
-          · rw [h2]; exact ha1 t htm
+          · rw [h2]
+            refine ⟨(ha1 t htm).1, fun sid q hq => ?_⟩
+            rw [h4 sid q hq]; exact (ha1 t htm).2 sid q hq
           · exact ha1 y hy
         cases res with
         | none =>
@@ -847,7 +950,8 @@ theorem tr_asyncStep (U : Universe) (P : Problem) (a : AS) (ha : ALegit U P a) :
           exact hfin
         | some r =>
           dsimp only
-          apply tr_bind (by stab) (tr_of_tm _ (tm_runCallback U P t.task r (ha1 t htm) (h3 r rfl)))
+          apply tr_bind (by stab) (tr_of_tm _ (tm_runCallback U P t.task r (ha1 t htm).1 (h3 r rfl).1
+            (fun sid q hq => by rw [← (ha1 t htm).2 sid q hq]; exact (h3 r rfl).2)))
           intro _
           apply tr_pure_ctx
           intro _ _ a' ha'
@@ -919,10 +1023,9 @@ theorem tm_propagate_inner (level : Nat) (fl : Lit) (l : List Nat) : TM U P (pro
     | none => dsimp only; exact (tm_panic _).at _
     | some c =>
       dsimp only
-      apply tmAt_of_tr (F := fun s' => KindTrue U P s'.origins c.kind) (G := fun _ _ => True) _
-        (fun hi => hi.kinds c (by
-          have := Array.mem_of_getElem? hc
-          exact Array.mem_def.mp this))
+      apply tmAt_of_tr (F := fun s' => KindTrue U P s'.origins c.kind ∧ ∀ p r, c.kind = .requires p r → (s'.reqCands.lookup r).isSome = true)
+        (G := fun _ _ => True) _
+        (fun hi => ⟨hi.kinds c (Array.mem_def.mp (Array.mem_of_getElem? hc)), hi.extra.reqs c (Array.mem_def.mp (Array.mem_of_getElem? hc))⟩)
       cases hw : c.watch with
       | none => dsimp only; exact tr_of_tm _ (tm_panic _)
       | some w =>
@@ -1085,7 +1188,17 @@ theorem tinv_solve (U : Universe) (hU : WFU U) (P : Problem) (fuel : Nat) (s : S
         apply tm_bind _ _ hloop
         intro _
         ts
-  · refine ⟨hU, rfl, ?_, ?_, ?_, ?_, ?_⟩
+  · refine ⟨⟨?_, ?_, ?_⟩, hU, rfl, ?_, ?_, ?_, ?_, ?_⟩
+    · intro v x hv
+      have hv' : List.lookup v [(0, Origin.root)] = some (.solvable x) := hv
+      simp only [List.lookup_cons, List.lookup_nil] at hv'
+      split at hv' <;> cases hv'
+    · intro r x hr
+      have hr' : List.lookup r ([] : List (Req × List (List Nat))) = some x := hr
+      cases hr'
+    · intro c hc
+      have hc' : c ∈ ([] : List MClause) := hc
+      cases hc'
     · intro v o hv
       have hv' : List.lookup v [(0, Origin.root)] = some o := hv
       show v < 1
